@@ -4558,7 +4558,9 @@ def run(prog, rep, tier):
         'by _run_task is woken (answer stored, event set) depends on tests of '
         'the table _task_service_data only; in the agent scheduler a cell of '
         'the backlog / queue table read under a membership test of its key is '
-        'read under a test on that very table.')
+        'read under a test on that very table; in control_cb every backlog '
+        'cell that exists when a queue registers can be relayed whatever the '
+        'sibling cells are (paths enumerated per presence assignment).')
     rep.undecided = ('process-level races between the worker process and the '
         'timeout path (both may put a result); requests larger than the '
         'worker (asserts in _alloc); zmq delivery between master and '
